@@ -121,7 +121,8 @@ def run_ops(port, ops, depth, multiple, fragment):
 
 NAMECH = 'ABCDEFGHIJKLMNOPQRSTUVWXYZabcdefghijklmnopqrstuvwxyz0123456789_'
 TEXTTYPES = {'INT': (195, 2, -32768, 65535), 'DINT': (196, 4, -2 ** 31, 2 ** 32 - 1), 'SINT': (194, 1, -128, 255), 'USINT': (198, 1, 0, 255),
-             'UINT': (199, 2, 0, 65535), 'UDINT': (200, 4, 0, 2 ** 32 - 1), 'LINT': (197, 8, -2 ** 63, 2 ** 64 - 1)}
+             'UINT': (199, 2, 0, 65535), 'UDINT': (200, 4, 0, 2 ** 32 - 1), 'LINT': (197, 8, -2 ** 63, 2 ** 64 - 1),
+             'REAL': (202, 4, -1000, 1000), 'LREAL': (203, 8, -1000, 1000), 'ULINT': (201, 8, 0, 2 ** 64 - 1)}      # (floating types spelled with integral values)
 
 
 def gen_optext(rng):
